@@ -102,6 +102,108 @@ def max_parities(k, n, planted_bits):
 
 
 # ---------------------------------------------------------------------------
+# the same two counts without enumerating the k-subsets (for n >= 13)
+#
+# Two variables on which every planted assignment takes the same values are
+# interchangeable: the variables are partitioned into at most 2^p classes by
+# their column (value under a_1, ..., value under a_p).  Whether a clause /
+# parity on the variable set S is compatible with the planted assignments
+# depends only on how many variables S takes from each class:
+#   * a clause on S is falsified by a_j iff its signs are the opposite of a_j
+#     restricted to S, so 2^k - #{distinct restrictions a_j|S} clauses on S are
+#     compatible, and a_i|S = a_j|S iff i and j agree on every class S meets;
+#   * the parity of a_j on S is the xor over the classes from which S takes an
+#     odd number of variables of the value of a_j on that class; (S, b) is
+#     compatible iff every a_j has parity b on S.
+
+def column_classes(n, planted_bits):
+    """{column: number of variables with that column}; column = tuple of the
+    values of the variable under each planted assignment."""
+    sizes = {}
+    for i in range(n):
+        col = tuple((a >> i) & 1 for a in planted_bits)
+        sizes[col] = sizes.get(col, 0) + 1
+    return sizes
+
+
+def _class_choices(cols, sizes, k):
+    """Every way of taking k variables as (c_1, ..., c_r) variables per class."""
+    if not cols:
+        if k == 0:
+            yield ()
+        return
+    head, rest = cols[0], cols[1:]
+    for c in range(0, min(k, sizes[head]) + 1):
+        for tail in _class_choices(rest, sizes, k - c):
+            yield (c,) + tail
+
+
+@lru_cache(maxsize=4096)
+def max_clauses_by_classes(k, n, planted_bits):
+    if k > n:
+        return 0
+    sizes = column_classes(n, planted_bits)
+    cols = sorted(sizes)
+    p = len(planted_bits)
+    total = 0
+    for choice in _class_choices(cols, sizes, k):
+        ways = 1
+        for col, c in zip(cols, choice):
+            ways *= comb(sizes[col], c)
+        met = [col for col, c in zip(cols, choice) if c]
+        restrictions = set(tuple(col[j] for col in met) for j in range(p))
+        total += ways * (2 ** k - len(restrictions))
+    return total
+
+
+@lru_cache(maxsize=4096)
+def max_parities_by_classes(k, n, planted_bits):
+    if k > n:
+        return 0
+    sizes = column_classes(n, planted_bits)
+    cols = sorted(sizes)
+    p = len(planted_bits)
+    total = 0
+    for choice in _class_choices(cols, sizes, k):
+        ways = 1
+        for col, c in zip(cols, choice):
+            ways *= comb(sizes[col], c)
+        values = set()
+        for j in range(p):
+            v = 0
+            for col, c in zip(cols, choice):
+                if c & 1:
+                    v ^= col[j]
+            values.add(v)
+        if p == 0:
+            total += 2 * ways
+        elif len(values) == 1:
+            total += ways
+    return total
+
+
+def gf2_consistent(parities):
+    """True when the system xor(S)=b has a solution (elimination, no truth table)."""
+    pivots = {}
+    for S, b in parities:
+        r = 0
+        for x in S:
+            r ^= 1 << x
+        while r:
+            p = r.bit_length() - 1
+            if p not in pivots:
+                pivots[p] = (r, b)
+                break
+            pr, pb = pivots[p]
+            r ^= pr
+            b ^= pb
+        else:
+            if b:
+                return False
+    return True
+
+
+# ---------------------------------------------------------------------------
 # shape of a clause list
 
 class ShapeError(Exception):
